@@ -174,13 +174,20 @@ func (h *history) buildReport() []PacketReport {
 // for writing.
 func (h *history) delete(p *PacketReport) {
 	delete(h.packets, p.SequenceNumber)
+	// A sequence number can have been reused by a later packet (wrap-around,
+	// retransmission): only drop index entries that still point to p.
 	if p.IsTWCC {
-		delete(h.twccToCounter, p.TWCCSequenceNumber)
+		if c, ok := h.twccToCounter[p.TWCCSequenceNumber]; ok && c == p.SequenceNumber {
+			delete(h.twccToCounter, p.TWCCSequenceNumber)
+		}
 	}
-	delete(h.ssrcSeqNrToCounter, ssrcSequenceNumber{
+	key := ssrcSequenceNumber{
 		ssrc:           p.SSRC,
 		sequenceNumber: p.RTPSequenceNumber,
-	})
+	}
+	if c, ok := h.ssrcSeqNrToCounter[key]; ok && c == p.SequenceNumber {
+		delete(h.ssrcSeqNrToCounter, key)
+	}
 }
 
 // cleanBefore removes all entries in the interval [h.cleanBefore, counter).
